@@ -188,6 +188,11 @@ def kinds():
             evs += ["acc", f"rx {i} " + nodegen.cer("peer1.x" if i % 2 == 0 else "peer2.x", "4", n(), n())]
         return evs + ["stop 0 2"]
 
+    def stop_newcomers(N):
+        # a graceful stop waiting for one peer's DPA while N connections arrive: each is refused and closed at once
+        evs = ["start fail", "acc", "rx 0 " + nodegen.cer("peer1.x", "4", n(), n())]
+        return evs + [f"stop 0 {N + 2} " + " ".join(["acc"] * N) + " rx_0_" + nodegen.dpa(n(), n(), "peer1.x")]
+
     def dial_no_address(N):
         # a persistent peer without addresses that had connected by itself and is gone: N reconnect passes find nothing to dial
         evs = ["start fail", "acc", "rx 0 " + nodegen.cer("peer2.x", "4", n(), n()), "eof 0", "tick"]
@@ -224,7 +229,7 @@ def kinds():
             "outbound_req": outbound_req, "outbound_req_timeout": outbound_req_timeout, "conn_ok": conn_ok, "inbound_req_raise": inbound_req_raise, "thread_req": thread_req,
             "thread_req_raise": thread_req_raise, "conn_req_answered": conn_req_answered, "conn_node_closes": conn_node_closes, "conn_unknown": conn_unknown,
             "conn_timeout": conn_timeout, "conn_already": conn_already, "second_conn_req": second_conn_req,
-            "stop_forced": stop_forced, "stop_unanswered": stop_unanswered, "dial_no_address": dial_no_address, "dial_refused": dial_refused,
+            "stop_forced": stop_forced, "stop_unanswered": stop_unanswered, "stop_newcomers": stop_newcomers, "dial_no_address": dial_no_address, "dial_refused": dial_refused,
             "dial_async_fail": dial_async_fail, "dial_rejected": dial_rejected, "dial_established": dial_established}
 
 
@@ -246,7 +251,7 @@ def final(lines: list[str]):
 
 
 def run(res: Result, tier: str, seed: int):
-    res.rule = ("22 kinds of completed transaction / connection attempt, each repeated N times (N = 1, 10 quick; 1, 10, 100 thorough; "
+    res.rule = ("23 kinds of completed transaction / connection attempt, each repeated N times (N = 1, 10 quick; 1, 10, 100 thorough; "
                 "a 1000-run for inbound requests in thorough) on one node, ending with every request answered and every "
                 "connection ended; oracle: every table size, the open-socket count and the live-worker count at the end are the "
                 "same for every N (apart from the fixed-size retransmission window; the peers' statistics windows stay within their documented bounds: deque bound, maximum age of the time slots); real vs model on SIZE/RES")
